@@ -8,7 +8,9 @@ import os
 import time
 from typing import Any, Dict, List, Optional, Tuple
 
+from harness.extract import c01_handlers as x_h
 from harness.extract import episode as x_ep
+from harness.extract import request_schema as x_schema
 from harness.lib import scen
 from harness.lib.core import LEAN, VERIF, Ctx, Rng, lean_lock, run_driver
 from harness.rigs import c01_disturb as dist
@@ -38,7 +40,9 @@ MANIFEST = {
             "no-failing-input-found). Tie: the call order of step/advance_timestep/apply_agent_actions/update_agents/reset (gym environment, "
             "MARL environment, PrimaiteGame.step), the truncation comparator (translated from source), the literal terminated=False, the "
             "single history append, the fields and the single construction site of AgentHistoryItem and the Literal of "
-            "RequestResponse.status are regenerated from source (Gen/Episode.lean, obligations C01_gen_pipeline, C01_gen_history_item).",
+            "RequestResponse.status are regenerated from source (Gen/Episode.lean, obligations C01_gen_pipeline, C01_gen_history_item); the inventory of leaf request handlers is regenerated "
+            "too and every handler returns a RequestResponse by construction on every path, four listed forwarding handlers excepted "
+            "(Gen/EpisodeHandlers.lean against C05x's Gen/RequestSchema.lean, obligation C01_gen_handlers_return_responses).",
     "note": "C01-specific: Python exceptions inside handlers/observations/rewards and float overflow are outside the model; totality is "
             "validated by execution only (one or two blue disturbances per episode, one reset seed per scenario and run). Scenario families: "
             "shipped scenarios x generated action maps and members of the generated topology families (switched LAN, routed, firewall+DMZ) "
@@ -49,7 +53,7 @@ MANIFEST = {
                  "with disturbed long episodes sharded over worker processes; standalone agent-totality sweep with search",
     "design_ref": "5/C01",
 }
-MODULES = ["PrimaiteModel.Props.C01"]
+MODULES = ["PrimaiteModel.Props.C01", "PrimaiteModel.Props.C01Handlers"]
 EXE = "drv_c01"
 QUICK = ["data_manipulation", "basic_firewall", "test_primaite_session", "wireless_wan_network_config", "uc7_config"]
 QUICK_DISTURB = ["uc7_config", "uc7_config_tap003", "data_manipulation"]
@@ -541,13 +545,13 @@ def _phase1(ctx: Ctx, rng: Rng) -> List[dict]:
             units.append({"kind": "settings", "label": f"{atype}-boundary-{i}", "agent_type": atype, "overrides": ov, "steps": cs.steps_needed(ov, 40),
                           "rng": r_set.fork(f"{atype}{i}"), "random_blue": i % 2 == 1, "why": "boundary", "weight": 2})
     r_ag = rng.fork("agents")
-    shards = ctx.scale(1, 4)      # the thorough sweep (256 / 48 configurations) is spread over several units
+    shards = ctx.scale(1, 8)      # the thorough sweep (256 / 48 configurations) is spread over several units
     for kind, n_cfg in (("tap1", 6), ("tap3", 6)):
         for i in range(shards):
             units.append({"kind": "agents", "label": f"sweep-{kind}" + (f"-{i}" if shards > 1 else ""), "family": "sweep", "agent": kind,
                           "rng": r_ag.fork("s" + kind), "thorough": ctx.thorough, "n_cfg": n_cfg, "n_pairs": 12, "shard": (i, shards),
                           "weight": (40 if kind == "tap1" else 15) if ctx.thorough else 8})
-    n = ctx.scale(150, 1500)
+    n = ctx.scale(150, 800)
     units.append({"kind": "agents", "label": "c19-families", "family": "c19", "rng": r_ag.fork("c19"),
                   "kinds": [("periodic", n), ("prob", n), ("rand", n // 3), ("tap1", n), ("tap3", n)], "weight": 10 if ctx.thorough else 3})
     # undisturbed probes of the scenarios with scripted red agents
@@ -562,9 +566,9 @@ def _phase1(ctx: Ctx, rng: Rng) -> List[dict]:
     if not ctx.thorough:
         rest = r_long.shuffle([n for n in rest if not n.startswith("nmap_")])[:3]
     for n in rest:
-        slow = n.startswith("nmap_")       # seconds per step: 45 steps (past the 30-tick session time-out), not 256
+        slow = n.startswith("nmap_")       # seconds per step: 36 steps (past the 30-tick session time-out), not 256
         units.append({"kind": "probe", "label": n + "(long)", "scenario": n, "seed": r_long.fork(n).below(2 ** 31), "no_plan": True,
-                      "length": 45 if slow else None, "weight": 40 if slow else 8})
+                      "length": 36 if slow else None, "weight": 40 if slow else 8})
     return units
 
 
@@ -611,12 +615,12 @@ def _phase2(ctx: Ctx, rng: Rng, probes: List[Tuple[dict, dict]]) -> List[dict]:
         big = "uc7" in unit["label"]
         if ctx.thorough:
             if unit["label"] in GRID:       # every action of the map in every bucket, plus pairs
-                items = dist.plan(cfg, ex["buckets"], r, True, n_sample=0, n_pairs=12, cap=280 if big else 420)
-            else:                           # the other scenarios: relevant action x bucket cells (a seeded sample of 24), a few others, pairs
+                items = dist.plan(cfg, ex["buckets"], r, True, n_sample=0, n_pairs=8, cap=130 if big else 220)
+            else:                           # the other scenarios: relevant action x bucket cells (a seeded sample of 12), a few others, pairs
                 rel = set(ex["relevant"])
                 cells = [it for it in dist.plan(cfg, ex["buckets"], r, True, 0, 0, cap=10 ** 6) if it["dist"][0][1] in rel]
-                items = r.shuffle(cells)[:24]
-                items += [it for it in dist.plan(cfg, ex["buckets"], r.fork("s"), False, 4, 3, cap=0)]
+                items = r.shuffle(cells)[:12]
+                items += [it for it in dist.plan(cfg, ex["buckets"], r.fork("s"), False, 2, 2, cap=0)]
         else:
             # quick: the relevant actions (capped; different action types first), a few of the others, a few pairs
             n_rel = len(ex.get("relevant") or [])
@@ -772,6 +776,8 @@ def run(ctx: Ctx):
     del _SEGS[:]
     with lean_lock():
         ctx.extract("Episode", x_ep.emit)
+        ctx.extract("EpisodeHandlers", x_h.emit)
+        ctx.extract("RequestSchema", x_schema.emit)      # C05x's extractor, run here so that the tie is against the CURRENT source
         ctx.prove(MODULES, exes=[EXE], leanchecker=ctx.thorough)
     ctx.cov["rule"] = ("cases = (a) shipped scenario x {shipped action map, generated action maps over every registered action type with existing, "
                        "missing and powered-off targets} x 2-4 episodes with a mid-episode reset, a run past truncation and public-surface calls "
